@@ -69,6 +69,9 @@ def call_items(funcs, tier):
                 for x in safe:
                     add(f, (inf, x), "p")
                     add(f, (x, inf), "p")
+        if f in S.NON_CONSUMING or f == "len":
+            for h in S.HUGE_POOL:
+                add(f, (h,), "p")
     return items
 
 
@@ -80,7 +83,7 @@ def force_items(items, results, lazy_anyway=()):
         if it["form"] != "p" or len(res) < 2:
             continue
         lk = "stream" if idx in lazy_anyway else S.lazy_kind(res[1])
-        if not lk or "sti" in it["sig"] and lk == "stream":
+        if not lk or ("sti" in it["sig"] or "sth" in it["sig"]) and lk == "stream":
             continue
         for how, tmpl in S.FORCE[lk]:
             src = tmpl % it["src"]
